@@ -1073,18 +1073,20 @@ package hashgraph
 // set, otherwise the set recorded at the greatest round not above it; every recorded set is well-formed.
 //@ ghost func (s *InmemStore) psCoupled() bool { return s.peerSetCache != nil && s.peerSetCache.wf() && s.peerSetCache.repertoireByPubKey != nil && s.peerSetCache.repertoireByID != nil && s.peerSetCache.firstRounds != nil && G_psetOK(s) == (len(s.peerSetCache.rounds) > 0) && (len(s.peerSetCache.rounds) > 0 ==> G_psetFloor(s) == s.peerSetCache.rounds[0]) && (forall i int :: 0 <= i && i < len(s.peerSetCache.rounds) ==> s.peerSetCache.peerSets[s.peerSetCache.rounds[i]].WF()) && s.psView() }
 //@ ghost func (s *InmemStore) psView() bool { return (forall r int :: len(s.peerSetCache.rounds) > 0 && r < s.peerSetCache.rounds[0] ==> G_pset(s)[r] == s.peerSetCache.peerSets[s.peerSetCache.rounds[0]]) && (forall r int, k int :: 0 <= k && k < len(s.peerSetCache.rounds) && s.peerSetCache.rounds[k] <= r && (k == len(s.peerSetCache.rounds)-1 || r < s.peerSetCache.rounds[k+1]) ==> G_pset(s)[r] == s.peerSetCache.peerSets[s.peerSetCache.rounds[k]]) }
-//@ ghost func (s *InmemStore) eventsCoupled() bool { return forall k string :: __in(interface{}(k), common.G_m(s.eventCache)) ==> __in(k, G_events(s)) && common.G_m(s.eventCache)[interface{}(k)] == interface{}(G_events(s)[k]) && G_events(s)[k] != nil }
-//@ ghost func (s *InmemStore) roundsCoupled() bool { return forall r int :: __in(interface{}(r), common.G_m(s.roundCache)) ==> __in(r, G_rounds(s)) && common.G_m(s.roundCache)[interface{}(r)] == interface{}(G_rounds(s)[r]) && G_rounds(s)[r] != nil && G_rounds(s)[r].CreatedEvents != nil }
-//@ ghost func (s *InmemStore) blocksCoupled() bool { return forall i int :: __in(interface{}(i), common.G_m(s.blockCache)) ==> __in(i, G_blocks(s)) && common.G_m(s.blockCache)[interface{}(i)] == interface{}(G_blocks(s)[i]) && G_blocks(s)[i] != nil && G_blocks(s)[i].Body.Index == i && G_blocks(s)[i].Signatures != nil }
-//@ ghost func (s *InmemStore) framesCoupled() bool { return forall i int :: __in(interface{}(i), common.G_m(s.frameCache)) ==> __in(i, G_frames(s)) && common.G_m(s.frameCache)[interface{}(i)] == interface{}(G_frames(s)[i]) && G_frames(s)[i] != nil && FrameWF(G_frames(s)[i]) }
+//@ ghost func (s *InmemStore) eventsCoupled() bool { return forall k string :: __in(interface{}(k), common.G_m(s.eventCache)) ==> __in(k, G_events(s)) && common.G_m(s.eventCache)[interface{}(k)] == interface{}(G_events(s)[k]) && G_events(s)[k] != nil && __dyn(common.G_m(s.eventCache)[interface{}(k)], "Event") }
+//@ ghost func (s *InmemStore) roundsCoupled() bool { return forall r int :: __in(interface{}(r), common.G_m(s.roundCache)) ==> __in(r, G_rounds(s)) && common.G_m(s.roundCache)[interface{}(r)] == interface{}(G_rounds(s)[r]) && G_rounds(s)[r] != nil && G_rounds(s)[r].CreatedEvents != nil && __dyn(common.G_m(s.roundCache)[interface{}(r)], "RoundInfo") }
+//@ ghost func (s *InmemStore) blocksCoupled() bool { return forall i int :: __in(interface{}(i), common.G_m(s.blockCache)) ==> __in(i, G_blocks(s)) && common.G_m(s.blockCache)[interface{}(i)] == interface{}(G_blocks(s)[i]) && G_blocks(s)[i] != nil && G_blocks(s)[i].Body.Index == i && G_blocks(s)[i].Signatures != nil && __dyn(common.G_m(s.blockCache)[interface{}(i)], "Block") }
+//@ ghost func (s *InmemStore) framesCoupled() bool { return forall i int :: __in(interface{}(i), common.G_m(s.frameCache)) ==> __in(i, G_frames(s)) && common.G_m(s.frameCache)[interface{}(i)] == interface{}(G_frames(s)[i]) && G_frames(s)[i] != nil && FrameWF(G_frames(s)[i]) && __dyn(common.G_m(s.frameCache)[interface{}(i)], "Frame") }
 
 //@ func (s *InmemStore) GetRound(r int) (*RoundInfo, error)
+//@   safety on
 //@   implements Store.GetRound
 //@   requires s != nil && s.coupled()
 //@   modifies nothing
 //@   ensures[notfound] ret1 != nil ==> common.IsStore(ret1, common.KeyNotFound)
 
 //@ func (s *InmemStore) SetRound(r int, round *RoundInfo) error
+//@   safety on
 //@   implements Store.SetRound
 //@   requires s != nil && s.coupled()
 //@   modifies common.G_m(s.roundCache), s.lastRound
@@ -1092,6 +1094,7 @@ package hashgraph
 //@   ensures[coupled] s.coupled()
 
 //@ func (s *InmemStore) GetBlock(index int) (*Block, error)
+//@   safety on
 //@   implements Store.GetBlock
 //@   requires s != nil && s.coupled()
 //@   modifies nothing
@@ -1099,6 +1102,7 @@ package hashgraph
 //@   ensures[cached]   (ret1 == nil) == __in(interface{}(index), common.G_m(s.blockCache))
 
 //@ func (s *InmemStore) SetBlock(block *Block) error
+//@   safety on
 //@   implements Store.SetBlock
 //@   requires s != nil && s.coupled()
 //@   modifies common.G_m(s.blockCache), s.lastBlock
@@ -1108,16 +1112,19 @@ package hashgraph
 //@   ensures[coupled] s.coupled()
 
 //@ func (s *InmemStore) LastBlockIndex() int
+//@   safety on
 //@   implements Store.LastBlockIndex
 //@   requires s != nil && s.coupled()
 
 //@ func (s *InmemStore) GetFrame(index int) (*Frame, error)
+//@   safety on
 //@   implements Store.GetFrame
 //@   requires s != nil && s.coupled()
 //@   modifies nothing
 //@   ensures[notfound] ret1 != nil ==> common.IsStore(ret1, common.KeyNotFound)
 
 //@ func (s *InmemStore) SetFrame(frame *Frame) error
+//@   safety on
 //@   implements Store.SetFrame
 //@   requires s != nil && s.coupled()
 //@   modifies common.G_m(s.frameCache)
@@ -1128,11 +1135,12 @@ package hashgraph
 // ParticipantEventsCache (C16): per-participant event listings. A participant is looked up by the upper-cased key
 // in the cache's peer set; every operation is then the RollingIndexMap operation on that peer's ID.
 //@ ghost func PID(p *peers.Peer) uint32 { return keys.KeyID(common.KeyBytesOf(p.PubKeyHex)) }
-//@ ghost func (pec *ParticipantEventsCache) wf() bool { return pec.participants != nil && pec.participants.WF() && pec.rim != nil && pec.rim.WF() && (forall i int :: 0 <= i && i < len(pec.participants.Peers) ==> pec.rim.Has(PID(pec.participants.Peers[i]))) }
+//@ ghost func (pec *ParticipantEventsCache) wf() bool { return pec.participants != nil && pec.participants.WF() && pec.rim != nil && pec.rim.WF() && pec.rim.AllStr() && (forall i int :: 0 <= i && i < len(pec.participants.Peers) ==> pec.rim.Has(PID(pec.participants.Peers[i]))) }
 //@ ghost func (pec *ParticipantEventsCache) known(participant string) bool { return __in(common.Upper(participant), pec.participants.ByPubKey) }
 //@ ghost func (pec *ParticipantEventsCache) idx(participant string) *common.RollingIndex { return pec.rim.At(PID(pec.participants.ByPubKey[common.Upper(participant)])) }
 
 //@ func (pec *ParticipantEventsCache) AddPeer(peer *peers.Peer) error
+//@   safety on
 //@   requires pec != nil && pec.wf() && peers.PeerOK(peer) && len(pec.participants.Peers) < 2147483647
 //@   modifies pec.participants, any common.RollingIndexMap.keys, anymap map[uint32]*common.RollingIndex
 //@   ensures[wf] pec.wf()
@@ -1140,12 +1148,14 @@ package hashgraph
 //@   ensures[grow] len(pec.participants.Peers) >= old(len(pec.participants.Peers)) && len(pec.participants.Peers) <= old(len(pec.participants.Peers)) + 1
 
 //@ func (pec *ParticipantEventsCache) participantID(participant string) (uint32, error)
+//@   safety on
 //@   requires pec != nil && pec.wf()
 //@   modifies nothing
 //@   ensures[known]   pec.known(participant) ==> ret1 == nil && ret0 == PID(pec.participants.ByPubKey[common.Upper(participant)]) && pec.rim.Has(ret0)
 //@   ensures[unknown] !pec.known(participant) ==> common.IsStore(ret1, common.UnknownParticipant)
 
 //@ func (pec *ParticipantEventsCache) Set(participant string, hash string, index int) error
+//@   safety on
 //@   ints checked
 //@   requires pec != nil && pec.wf() && index >= 0 && index < 4611686018427387904
 //@   modifies any common.RollingIndex.items, any common.RollingIndex.lastIndex
@@ -1156,6 +1166,7 @@ package hashgraph
 //@   ensures[toolate] pec.known(participant) && 0 <= old(pec.idx(participant).Last()) && index < old(pec.idx(participant).Oldest()) ==> common.IsStore(ret0, common.TooLate) && pec.idx(participant).Last() == old(pec.idx(participant).Last())
 
 //@ func (pec *ParticipantEventsCache) GetLast(participant string) (string, error)
+//@   safety on
 //@   requires pec != nil && pec.wf()
 //@   modifies nothing
 //@   ensures[unknown] !pec.known(participant) ==> common.IsStore(ret1, common.UnknownParticipant)
@@ -1163,6 +1174,7 @@ package hashgraph
 //@   ensures[last]    pec.known(participant) && len(pec.idx(participant).Items()) > 0 ==> ret1 == nil && interface{}(ret0) == pec.idx(participant).Items()[len(pec.idx(participant).Items())-1]
 
 //@ func (pec *ParticipantEventsCache) GetItem(participant string, index int) (string, error)
+//@   safety on
 //@   ints checked
 //@   requires pec != nil && pec.wf()
 //@   modifies nothing
@@ -1172,6 +1184,7 @@ package hashgraph
 //@   ensures[hit]      pec.known(participant) && pec.idx(participant).Oldest() <= index && index <= pec.idx(participant).Last() ==> ret1 == nil && interface{}(ret0) == pec.idx(participant).Items()[index-pec.idx(participant).Oldest()]
 
 //@ func (pec *ParticipantEventsCache) Get(participant string, skipIndex int) ([]string, error)
+//@   safety on
 //@   ints checked
 //@   requires pec != nil && pec.wf()
 //@   modifies nothing
@@ -1186,6 +1199,7 @@ package hashgraph
 // table exactly as it was, an accepted write changes only the entry of that hash. The clauses of Store.SetEvent /
 // GetEvent about heads, known-events counters and the repertoire are NOT verified against this implementation.
 //@ func (s *InmemStore) GetEvent(key string) (*Event, error)
+//@   safety on
 //@   requires s != nil && s.coupled()
 //@   modifies nothing
 //@   ensures[hit-view] ret1 == nil ==> ret0 != nil && __in(key, G_events(s)) && ret0 == G_events(s)[key]
@@ -1194,6 +1208,7 @@ package hashgraph
 //@   ensures[cached]   (ret1 == nil) == __in(interface{}(key), common.G_m(s.eventCache))
 
 //@ func (s *InmemStore) SetEvent(event *Event) error
+//@   safety on
 //@   ints checked
 //@   requires s != nil && s.coupled() && event != nil && event.Body.Index >= 0 && event.Body.Index < 4611686018427387904
 //@   modifies common.G_m(s.eventCache), any common.RollingIndex.items, any common.RollingIndex.lastIndex, G_events(s)
@@ -1204,6 +1219,7 @@ package hashgraph
 
 // Peer sets: GetPeerSet/SetPeerSet against the Store contracts.
 //@ func (s *InmemStore) GetPeerSet(round int) (*peers.PeerSet, error)
+//@   safety on
 //@   implements Store.GetPeerSet
 //@   requires s != nil && s.coupled()
 //@   modifies nothing
@@ -1288,12 +1304,14 @@ package hashgraph
 //@   ensures[ok]            s.ok()
 
 //@ func (s *InmemStore) GetRoot(participant string) (*Root, error)
+//@   safety on
 //@   requires s != nil
 //@   modifies nothing
 //@   ensures[hit]  __in(participant, s.roots) ==> ret1 == nil && ret0 == s.roots[participant]
 //@   ensures[miss] !__in(participant, s.roots) ==> ret0 == nil && common.IsStore(ret1, common.KeyNotFound)
 
 //@ func (s *InmemStore) ParticipantEvents(participant string, skip int) ([]string, error)
+//@   safety on
 //@   ints checked
 //@   requires s != nil && s.participantEventsCache != nil && s.participantEventsCache.wf()
 //@   modifies nothing
@@ -1303,6 +1321,7 @@ package hashgraph
 //@   ensures[ahead]   s.participantEventsCache.known(participant) && skip > s.participantEventsCache.idx(participant).Last() ==> ret1 == nil && len(ret0) == 0
 
 //@ func (s *InmemStore) ParticipantEvent(participant string, index int) (string, error)
+//@   safety on
 //@   ints checked
 //@   requires s != nil && s.participantEventsCache != nil && s.participantEventsCache.wf()
 //@   modifies nothing
